@@ -447,6 +447,7 @@ def run_case(idx, rng, P, rep):
             expect = ['m_deep']
         elif kind == 'replace-sub':
             had = isinstance(obj.sub, param.Parameterized)
+            detached_sub = obj.sub
             obj.sub = Sub(x=tokv(), y=tokv(), b=Sub(y=tokv()))
             # attach/replace with all-new values: m_sub runs exactly once; whether m_deep runs depends on the old
             # sub-object (C07's business), but never more than once
@@ -471,6 +472,16 @@ def run_case(idx, rng, P, rep):
         got = obj.calls[n_calls:]
         if expect is not None:
             expect = [e for e in expect if hasattr(cls, e) or e == 'on_private']
+        if replaced and isinstance(detached_sub, param.Parameterized):
+            # the sub-object that was replaced has nothing to say to either object any more
+            n_obj, n_oth = len(obj.calls), len(oth.__dict__.get('calls', []))
+            detached_sub.x = tokv()
+            detached_sub.param.x.bounds = (-tokv() - 1e8, 1e9)
+            rep.count('detached_subobject_probes')
+            if len(obj.calls) != n_obj or len(oth.__dict__.get('calls', [])) != n_oth:
+                viol(f'detached-subobject-still-watched-on-{side}', f'{mech}: after {kind} on the {side}, changes of the replaced sub-object ran '
+                     f'{obj.calls[n_obj:]} on the {side} and {oth.__dict__.get("calls", [])[n_oth:]} on the other object')
+                del obj.calls[n_obj:]
         if replaced and (got.count('m_sub') != int(hasattr(cls, 'm_sub')) or got.count('m_deep') > 1 or got.count('m_subslot') > 1 or set(got) - {'m_sub', 'm_deep', 'm_subslot'}):
             viol(f'dependency-not-working-on-{side}/{kind}', f'{mech}: after {kind} on the {side} its dependent methods ran {got}, expected m_sub once '
                  f'and m_deep at most once')
